@@ -188,7 +188,7 @@ def run_case(case):
         return {'fails': fails, 'nontrivial': False, 'classes': ['conf-rejected'], 'evals': 1}
     kindlab = 'tower' if case['tower'] and not case['overrides'] else 'overrides' if not case['tower'] else 'tower+overrides'
     for r in draws_for(vast, case.get('extra_draws', ()))[:8]:
-        for ep in E.ENTRY_POINTS:
+        for ep in (e for e in E.entry_points_for(node) if e in E.entry_points_for(node1)):
             a = E.call_entry(ep, node, vast, spec, r)
             b = E.call_entry(ep, node1, vast, spec1, r)
             evals += 2
